@@ -1,11 +1,246 @@
-(* C05: the refusals of grad / div / curl / laplace. *)
+(* C05: how the label dictionaries are read (spelling does not matter), what each operator returns in
+   terms of C04's line derivative, and the refusals. *)
 From DF Require Import Prelude FieldK NDArray Diff Calculus.
 
-Section Refuse.
-Variable K : FOps.
+(* ---------------- dictionary look-ups under renaming ---------------- *)
+Section Rename.
+Variables rho delta : string -> string.
+Hypothesis rho_inj : forall s t, rho s = rho t -> s = t.
+Hypothesis delta_inj : forall s t, delta s = delta t -> s = t.
 
-Lemma grad_refuses_vectors M dims nv vdims vmap (f : idx -> K) valid :
+Definition ren_map (m : sdict) : sdict := map (fun ab => (rho (fst ab), delta (snd ab))) m.
+
+Lemma eqb_inj (g : string -> string) : (forall s t, g s = g t -> s = t) ->
+  forall s t, String.eqb (g s) (g t) = String.eqb s t.
+Proof.
+  intros Hg s t. destruct (String.eqb_spec s t) as [E | N].
+  - subst. apply String.eqb_refl.
+  - apply String.eqb_neq. intros C. apply N. apply Hg. exact C.
+Qed.
+
+Lemma dlookup_ren k m : dlookup (rho k) (ren_map m) = option_map delta (dlookup k m).
+Proof.
+  induction m as [|[a b] m IH]; [reflexivity|]. simpl.
+  rewrite (eqb_inj rho rho_inj). destruct (String.eqb k a); [reflexivity | exact IH].
+Qed.
+
+Lemma rlookup_ren v m : rlookup (delta v) (ren_map m) = option_map rho (rlookup v m).
+Proof.
+  induction m as [|[a b] m IH]; [reflexivity|]. simpl. rewrite IH.
+  destruct (rlookup v m); [reflexivity|]. simpl.
+  rewrite (eqb_inj delta delta_inj). destruct (String.eqb v b); reflexivity.
+Qed.
+
+Lemma index_of_ren (g : string -> string) (Hg : forall s t, g s = g t -> s = t) s l :
+  index_of (g s) (map g l) = index_of s l.
+Proof.
+  induction l as [|h l IH]; [reflexivity|]. simpl. rewrite (eqb_inj g Hg).
+  destruct (String.eqb s h); [reflexivity|]. rewrite IH. reflexivity.
+Qed.
+
+Lemma axis_of_ren m dims v : axis_of (ren_map m) (map delta dims) (rho v) = axis_of m dims v.
+Proof.
+  unfold axis_of. rewrite dlookup_ren. destruct (dlookup v m) as [d|]; [|reflexivity]. simpl.
+  rewrite (index_of_ren delta delta_inj). reflexivity.
+Qed.
+
+Lemma comp_of_dim_ren vs m d :
+  comp_of_dim (map rho vs) (ren_map m) (delta d) = comp_of_dim vs m d.
+Proof.
+  unfold comp_of_dim. rewrite rlookup_ren. destruct (rlookup d m) as [v|]; [|reflexivity]. simpl.
+  rewrite (index_of_ren rho rho_inj). reflexivity.
+Qed.
+
+Lemma mapR_map {A B C} (f : B -> res C) (g : A -> B) l : mapR f (map g l) = mapR (fun x => f (g x)) l.
+Proof. induction l as [|x l IH]; [reflexivity|]. simpl. rewrite IH. reflexivity. Qed.
+
+Lemma mapR_ext {A B} (f g : A -> res B) l : (forall x, f x = g x) -> mapR f l = mapR g l.
+Proof. intros H. induction l as [|x l IH]; [reflexivity|]. simpl. rewrite H, IH. reflexivity. Qed.
+
+Theorem fwd_axes_ren vdims m dims :
+  fwd_axes (option_map (map rho) vdims) (ren_map m) (map delta dims) = fwd_axes vdims m dims.
+Proof.
+  destruct vdims as [vs|]; [|reflexivity]. simpl. rewrite mapR_map.
+  apply mapR_ext. intros v. apply axis_of_ren.
+Qed.
+
+Theorem rev_comps_ren vdims m dims :
+  rev_comps (option_map (map rho) vdims) (ren_map m) (map delta dims) = rev_comps vdims m dims.
+Proof.
+  destruct vdims as [vs|]; [|reflexivity]. simpl. rewrite mapR_map.
+  apply mapR_ext. intros d. apply comp_of_dim_ren.
+Qed.
+
+(* the spelling of component labels and of dimension names is irrelevant to all four operators:
+   only which label is mapped to which axis matters *)
+Theorem run_op_ren (K : FOps) op (M : cmesh K) dims nv vdims m (f : idx -> K) valid :
+  run_op K op M (map delta dims) nv (option_map (map rho) vdims) (ren_map m) f valid
+  = run_op K op M dims nv vdims m f valid.
+Proof.
+  unfold run_op. destruct op; try reflexivity.
+  - rewrite fwd_axes_ren. reflexivity.
+  - rewrite fwd_axes_ren, rev_comps_ren. reflexivity.
+  - destruct vdims; reflexivity.
+Qed.
+
+End Rename.
+
+(* ---------------- what the look-ups deliver ---------------- *)
+Lemma mapR_ok_nth {A B} (f : A -> res B) l r dA dB :
+  mapR f l = OK r -> length r = length l /\ forall c, (c < length l)%nat -> f (nth c l dA) = OK (nth c r dB).
+Proof.
+  revert r. induction l as [|x l IH]; intros r H; simpl in H.
+  - inversion H. split; [reflexivity | intros c Hc; simpl in Hc; lia].
+  - destruct (f x) as [y|e] eqn:Ex; simpl in H; [|discriminate].
+    destruct (mapR f l) as [t|e] eqn:Et; simpl in H; [|discriminate]. inversion H. subst r.
+    destruct (IH t eq_refl) as [Hl Hn]. split; [simpl; congruence|].
+    intros [|c] Hc; simpl; [exact Ex | apply Hn; simpl in Hc; lia].
+Qed.
+
+Lemma mapR_err_in {A B} (f : A -> res B) l x e :
+  In x l -> f x = Err e -> exists e', mapR f l = Err e'.
+Proof.
+  intros Hin Hx. induction l as [|y l IH]; [contradiction|]. simpl.
+  destruct Hin as [E | Hin].
+  - subst y. rewrite Hx. eexists. reflexivity.
+  - destruct (f y); [|eexists; reflexivity]. simpl.
+    destruct (IH Hin) as [e' He']. rewrite He'. eexists. reflexivity.
+Qed.
+
+(* div / curl accept exactly when every component label is mapped, by the dictionary, to a name in dims;
+   component c is then paired with THAT axis *)
+Theorem fwd_axes_spec vs m dims axes :
+  fwd_axes (Some vs) m dims = OK axes ->
+  length axes = length vs /\
+  forall c, (c < length vs)%nat ->
+    exists d, dlookup (nth c vs ""%string) m = Some d /\ index_of d dims = Some (nth c axes 0%nat).
+Proof.
+  intros H. simpl in H. destruct (mapR_ok_nth _ _ _ ""%string 0%nat H) as [Hl Hn].
+  split; [exact Hl|]. intros c Hc. specialize (Hn c Hc). unfold axis_of in Hn.
+  destruct (dlookup (nth c vs ""%string) m) as [d|]; [|discriminate].
+  exists d. split; [reflexivity|]. destruct (index_of d dims); [|discriminate]. inversion Hn. reflexivity.
+Qed.
+
+Theorem rev_comps_spec vs m dims r :
+  rev_comps (Some vs) m dims = OK r ->
+  length r = length dims /\
+  forall a, (a < length dims)%nat ->
+    exists v, rlookup (nth a dims ""%string) m = Some v /\ index_of v vs = Some (nth a r 0%nat).
+Proof.
+  intros H. simpl in H. destruct (mapR_ok_nth _ _ _ ""%string 0%nat H) as [Hl Hn].
+  split; [exact Hl|]. intros a Ha. specialize (Hn a Ha). unfold comp_of_dim in Hn.
+  destruct (rlookup (nth a dims ""%string) m) as [v|]; [|discriminate].
+  exists v. split; [reflexivity|]. destruct (index_of v vs); [|discriminate]. inversion Hn. reflexivity.
+Qed.
+
+(* ---------------- the operators, and their refusals ---------------- *)
+Section Ops.
+Variable K : FOps.
+Variables (M : cmesh K) (dims : list string) (vmap : sdict) (f : idx -> K) (valid : idx -> bool).
+
+(* every derivative inside the four operators is C04's line operator on the grid line through the cell *)
+Theorem dax_is_line_derivative order a g (p : idx) :
+  dax K M order a g valid p
+  = nth (nth a p 0%nat)
+        (diff_line K order (nth a (cm_cell M) (f0 K)) (nth a (cm_per M) false) true
+                   (line (cm_sh M ++ [1%nat]) g a p) (line (cm_sh M) valid a (removelast p)))
+        (f0 K).
+Proof. reflexivity. Qed.
+
+Theorem grad_textbook vdims :
+  run_op K OGrad M dims 1 vdims vmap f valid = OK (cm_nd M, grad_v K M f valid) /\
+  forall (p : idx), grad_v K M f valid p = dax K M 1 (last p 0%nat) (comp K 0 f) valid (cell0 p).
+Proof. split; reflexivity. Qed.
+
+Theorem div_textbook vs axes :
+  fwd_axes (Some vs) vmap dims = OK axes ->
+  run_op K ODiv M dims (cm_nd M) (Some vs) vmap f valid = OK (1%nat, div_v K M axes f valid) /\
+  forall (p : idx), div_v K M axes f valid p
+    = fsum K (map (fun c => dax K M 1 (nth c axes 0%nat) (comp K c f) valid (cell0 p)) (iota 0 (length axes))).
+Proof.
+  intros H. split; [|reflexivity]. unfold run_op. rewrite Nat.eqb_refl, H. reflexivity.
+Qed.
+
+Theorem curl_textbook vs axes r :
+  cm_nd M = 3%nat -> fwd_axes (Some vs) vmap dims = OK axes -> rev_comps (Some vs) vmap dims = OK r ->
+  run_op K OCurl M dims 3 (Some vs) vmap f valid = OK (3%nat, curl_v K M r f valid) /\
+  forall (p : idx), curl_v K M r f valid p
+    = fsub (dax K M 1 ((last p 0 + 1) mod 3)%nat (comp K (nth ((last p 0 + 2) mod 3) r 0)%nat f) valid (cell0 p))
+           (dax K M 1 ((last p 0 + 2) mod 3)%nat (comp K (nth ((last p 0 + 1) mod 3) r 0)%nat f) valid (cell0 p)).
+Proof.
+  intros Hnd H1 H2. split; [|reflexivity]. unfold run_op. rewrite Hnd, H1, H2. reflexivity.
+Qed.
+
+Theorem laplace_textbook nv vs :
+  run_op K OLap M dims nv (Some vs) vmap f valid = OK (nv, lap_v K M f valid) /\
+  forall (p : idx), lap_v K M f valid p
+    = fsum K (map (fun a => dax K M 2 a (comp K (last p 0%nat) f) valid (cell0 p)) (iota 0 (cm_nd M))).
+Proof.
+  split; [|reflexivity]. unfold run_op. destruct (nv =? 1)%nat eqn:E; [|reflexivity].
+  apply Nat.eqb_eq in E. subst nv. reflexivity.
+Qed.
+
+Lemma grad_refuses_vectors nv vdims :
   nv <> 1%nat -> run_op K OGrad M dims nv vdims vmap f valid = Err ValueE.
 Proof. intros H. unfold run_op. destruct (Nat.eqb_spec nv 1); [contradiction | reflexivity]. Qed.
 
-End Refuse.
+Lemma div_refuses_misfit nv vdims :
+  nv <> cm_nd M -> run_op K ODiv M dims nv vdims vmap f valid = Err ValueE.
+Proof. intros H. unfold run_op. destruct (Nat.eqb_spec nv (cm_nd M)); [contradiction | reflexivity]. Qed.
+
+Lemma curl_refuses_misfit nv vdims :
+  nv <> 3%nat \/ cm_nd M <> 3%nat -> run_op K OCurl M dims nv vdims vmap f valid = Err ValueE.
+Proof.
+  intros H. unfold run_op.
+  destruct (Nat.eqb_spec nv 3); destruct (Nat.eqb_spec (cm_nd M) 3); simpl; try reflexivity.
+  destruct H; contradiction.
+Qed.
+
+Definition unmapped (v : string) : Prop :=
+  dlookup v vmap = None \/ exists d, dlookup v vmap = Some d /\ index_of d dims = None.
+
+Lemma unmapped_axis_of v : unmapped v -> axis_of vmap dims v = Err ValueE.
+Proof.
+  unfold axis_of. intros [H | [d [H1 H2]]]; [rewrite H; reflexivity | rewrite H1, H2; reflexivity].
+Qed.
+
+Definition is_err {A} (r : res A) : Prop := exists e, r = Err e.
+
+(* a component without a mapping entry, or mapped to a name that is not a dimension of the mesh:
+   div and curl refuse; so do they for a field without component labels *)
+Theorem div_refuses_unmapped nv vs v :
+  In v vs -> unmapped v -> is_err (run_op K ODiv M dims nv (Some vs) vmap f valid).
+Proof.
+  intros Hin Hu. unfold run_op. destruct (nv =? cm_nd M)%nat; [|eexists; reflexivity].
+  destruct (mapR_err_in (axis_of vmap dims) vs v _ Hin (@unmapped_axis_of v Hu)) as [e He].
+  simpl. rewrite He. eexists. reflexivity.
+Qed.
+
+Theorem curl_refuses_unmapped nv vs v :
+  In v vs -> unmapped v -> is_err (run_op K OCurl M dims nv (Some vs) vmap f valid).
+Proof.
+  intros Hin Hu. unfold run_op. destruct ((nv =? 3)%nat && (cm_nd M =? 3)%nat); [|eexists; reflexivity].
+  destruct (mapR_err_in (axis_of vmap dims) vs v _ Hin (@unmapped_axis_of v Hu)) as [e He].
+  simpl. rewrite He. eexists. reflexivity.
+Qed.
+
+(* an axis that no component is mapped to: curl refuses *)
+Theorem curl_refuses_uncovered_axis nv vs d :
+  In d dims -> rlookup d vmap = None -> is_err (run_op K OCurl M dims nv (Some vs) vmap f valid).
+Proof.
+  intros Hin Hr. unfold run_op. destruct ((nv =? 3)%nat && (cm_nd M =? 3)%nat); [|eexists; reflexivity].
+  destruct (fwd_axes (Some vs) vmap dims) as [ax|e]; [|eexists; reflexivity]. simpl.
+  assert (E : comp_of_dim vs vmap d = Err TypeE) by (unfold comp_of_dim; rewrite Hr; reflexivity).
+  destruct (mapR_err_in (comp_of_dim vs vmap) dims d _ Hin E) as [e He].
+  rewrite He. eexists. reflexivity.
+Qed.
+
+Theorem div_curl_refuse_unlabelled op nv :
+  op = ODiv \/ op = OCurl -> is_err (run_op K op M dims nv None vmap f valid).
+Proof.
+  intros [E | E]; subst op; unfold run_op.
+  - destruct (nv =? cm_nd M)%nat; eexists; reflexivity.
+  - destruct ((nv =? 3)%nat && (cm_nd M =? 3)%nat); eexists; reflexivity.
+Qed.
+
+End Ops.
